@@ -32,7 +32,10 @@ func (c *Conversation) receiveUnit(m ValidMessage, forgetFragments bool) (plain 
 		shouldForgetFragment = false
 		c.fragmentationContext, err = c.receiveFragment(c.fragmentationContext, message)
 		if fragmentsFinished(c.fragmentationContext) {
-			return c.withInjectionsPlain(c.receiveUnit(c.fragmentationContext.frag, false))
+			// a completed message is handed to processing exactly once
+			completed := c.fragmentationContext.frag
+			c.fragmentationContext = forgetFragment()
+			return c.withInjectionsPlain(c.receiveUnit(completed, false))
 		}
 	case msgGuessUnknown:
 		c.messageEvent(MessageEventReceivedMessageUnrecognized)
